@@ -4,6 +4,8 @@ package http3
 // HEADERS frames and pushed through the real receive paths:
 //
 //	request  : frameParser -> qpack.Decoder.Decode -> requestFromHeaders (as handleRequestStream does)
+//	server   : RawServerConn.handleRequestStream itself on a real quic.Stream: the handler sees
+//	           the request, or the STOP_SENDING / RESET_STREAM codes and the 431 response are observed
 //	response : RequestStream.ReadResponse over a scripted stream; the H3 error code the client
 //	           puts on the stream (CancelRead / CancelWrite) is observed directly
 //	trailer  : the response body of such a stream is read to the end, which runs
@@ -12,6 +14,7 @@ package http3
 import (
 	"bytes"
 	"context"
+	"errors"
 	"fmt"
 	"io"
 	"net/http"
@@ -184,6 +187,53 @@ func c19ParseWireTrailer(kind c19Kind, fs []c19Field, decodeErr bool, limit int)
 	return c19RenderHeader(rsp.Trailer), nil, "none", nil
 }
 
+// c19ParseWireServer runs the real server path RawServerConn.handleRequestStream on a real
+// quic.Stream (export shim mc/c19/inject) that holds HEADERS(block) + DATA("x"), and observes
+// what the server does: the handler is called (accepted), or the stream is reset.
+func c19ParseWireServer(kind c19Kind, fs []c19Field, decodeErr bool, limit int) (string, error, string, *explore.Fail) {
+	blk := c19EncodeBlock(fs, decodeErr)
+	if len(blk) > limit {
+		return "", nil, c19Skip, nil
+	}
+	qstr := quic.VerifC19NewStream(append(c19HeadersFrame(blk), c19DataFrame([]byte("x"))...))
+	var seen []string
+	c := &RawServerConn{
+		serverContext:  context.Background(),
+		maxHeaderBytes: limit,
+		decoder:        qpack.NewDecoder(),
+		requestHandler: http.HandlerFunc(func(w http.ResponseWriter, r *http.Request) { seen = append(seen, c19RenderRequest(r)) }),
+	}
+	c.rawConn = *newRawConn(quic.VerifC19Conn(), false, c.onStreamsEmpty, nil, nil, nil)
+	c.handleRequestStream(c.rawConn.TrackStream(qstr))
+	stop, reset, written := quic.VerifC19Drain(qstr)
+	if len(seen) > 0 {
+		if len(seen) != 1 || len(reset) != 0 {
+			return "", nil, "", explore.Failf("wire-server/accept-and-reset", "handler called %d times, RESET_STREAM %#x", len(seen), reset)
+		}
+		return seen[0], nil, "none", nil
+	}
+	status := ""
+	if len(written) > 0 {
+		if b, _, ok := c19ReadHeadersFrame(bytes.NewReader(written)); ok {
+			status = c19ViewOf(c19DecodeAll(b)).Pseudo[":status"]
+		}
+	}
+	obs := fmt.Sprintf("STOP_SENDING %#x, RESET_STREAM %#x, response status %q", stop, reset, status)
+	one := func(l []uint64, c ErrCode) bool { return len(l) == 1 && l[0] == uint64(c) }
+	switch {
+	case one(stop, ErrCodeMessageError) && one(reset, ErrCodeMessageError) && status == "":
+		return "", errors.New(obs), "H3_MESSAGE_ERROR", nil
+	case one(stop, ErrCodeQPACKDecompressionFailed) && one(reset, ErrCodeQPACKDecompressionFailed) && status == "":
+		return "", errors.New(obs), "QPACK_DECOMPRESSION_FAILED", nil
+	case one(stop, ErrCodeExcessiveLoad) && len(reset) == 0 && status == "431":
+		// RFC 9114, 4.2.2: "a server that receives a larger field section than it is willing to
+		// handle can send an HTTP 431 (Request Header Fields Too Large) status code"
+		return "", errors.New(obs), "too-large(431/H3_EXCESSIVE_LOAD)", nil
+	}
+	return "", errors.New(obs), "", explore.Failf("wire-server/wrong-stream-error:"+fmt.Sprintf("stop=%#x,reset=%#x,status=%s", stop, reset, status),
+		"the server refused the request with %s; RFC 9114 4.1.2 prescribes the stream error H3_MESSAGE_ERROR (0x10e) for malformed requests, QPACK_DECOMPRESSION_FAILED (0x200) for decoder failures, 431 for oversized sections", obs)
+}
+
 func c19WireContexts(e explore.Env) []c19Ctx {
 	l := 3
 	if e.Thorough() {
@@ -192,6 +242,8 @@ func c19WireContexts(e explore.Env) []c19Ctx {
 	return []c19Ctx{
 		{Name: "wire-request/bare", Kind: c19Req, MaxLen: l, Parse: c19ParseWireRequest},
 		{Name: "wire-request/GET-base+seq", Kind: c19Req, Pre: c19BaseGet, MaxLen: l - 1, Parse: c19ParseWireRequest},
+		{Name: "wire-server/bare", Kind: c19Req, MaxLen: l, Parse: c19ParseWireServer},
+		{Name: "wire-server/GET-base+seq", Kind: c19Req, Pre: c19BaseGet, MaxLen: l - 1, Parse: c19ParseWireServer},
 		{Name: "wire-response/bare", Kind: c19Rsp, MaxLen: l, Parse: c19ParseWireResponse},
 		{Name: "wire-response/status+seq", Kind: c19Rsp, Pre: c19BaseStatus, MaxLen: l - 1, Parse: c19ParseWireResponse},
 		{Name: "wire-trailer/bare", Kind: c19Trl, MaxLen: l, Parse: c19ParseWireTrailer},
